@@ -499,20 +499,24 @@ def geoToRpc : Option Geo → RGeo
   | none => { lat := 0, lon := 0, address := [] }
   | some g => { lat := g.lat, lon := g.lon, address := g.address.getD [] }
 
-def isEgress : IfMeta → Bool
-  | { link := some (.egress _), .. } => true
+def isEgress (m : IfMeta) : Bool :=
+  match m.link with
+  | some (.egress _) => true
   | _ => false
 
-def isIngress : IfMeta → Bool
-  | { link := some (.ingress _), .. } => true
+def isIngress (m : IfMeta) : Bool :=
+  match m.link with
+  | some (.ingress _) => true
   | _ => false
 
-def egressI32 : IfMeta → Int
-  | { link := some (.egress t), .. } => linkToI32 t
+def egressI32 (m : IfMeta) : Int :=
+  match m.link with
+  | some (.egress t) => linkToI32 t
   | _ => LINK_UNSET
 
-def ingressHops : IfMeta → Nat
-  | { link := some (.ingress c), .. } => c
+def ingressHops (m : IfMeta) : Nat :=
+  match m.link with
+  | some (.ingress c) => c
   | _ => 0
 
 /-- `ScionPath::to_rpc` -/
